@@ -125,6 +125,61 @@ static void body_nested(void)
         }
 }
 
+/* dynamic schedule: every iteration runs exactly once, whoever takes the chunk; the sum is schedule independent */
+static void body_dynamic_for(void)
+{
+        int i;
+        memset(cells, 0, sizeof cells);
+#pragma omp parallel for schedule(dynamic)
+        for(i = 0; i < 8; i++){
+                cells[i] += i + 1;
+        }
+        result = 0;
+        for(i = 0; i < 8; i++){
+                result = result * 11 + cells[i];
+        }
+}
+
+/* taskloop: every iteration exactly once, all done when the construct ends */
+static void body_taskloop(void)
+{
+        int i;
+        memset(cells, 0, sizeof cells);
+#pragma omp parallel
+#pragma omp single nowait
+        {
+#pragma omp taskloop shared(cells)
+                for(i = 0; i < 8; i++){
+                        cells[i] += i + 1;
+                }
+                result = 0;
+                for(i = 0; i < 8; i++){
+                        result = result * 11 + cells[i];
+                }
+        }
+}
+
+/* taskloop whose iterations write each other's cells (mirror writes): the last writer depends on the schedule */
+static void body_taskloop_mirror(void)
+{
+        int i;
+        memset(cells, 0, sizeof cells);
+#pragma omp parallel
+#pragma omp single nowait
+        {
+#pragma omp taskloop shared(cells) num_tasks(4)
+                for(i = 0; i < 4; i++){
+                        vg_yield();
+                        cells[i] = 10 + i;
+                        cells[3 - i] = 20 + i;
+                }
+                result = 0;
+                for(i = 0; i < 4; i++){
+                        result = result * 31 + cells[i];
+                }
+        }
+}
+
 static long outcomes[64];
 static int noutcomes;
 
@@ -148,6 +203,9 @@ static int run(struct ex_state* ex, void* user)
         case 3: body_completion_order(); break;
         case 4: body_static_for(); break;
         case 5: body_nested(); break;
+        case 6: body_dynamic_for(); break;
+        case 7: body_taskloop(); break;
+        case 8: body_taskloop_mirror(); break;
         }
         vg_end();
         for(i = 0; i < noutcomes; i++){
@@ -164,9 +222,9 @@ static int run(struct ex_state* ex, void* user)
 int main(void)
 {
         /* expected number of distinct outcomes: 1 = exactly one, 2 = at least two */
-        static const int expect[6] = {1, 2, 2, 2, 1, 1};
+        static const int expect[9] = {1, 2, 2, 2, 1, 1, 1, 1, 2};
         int fails = 0;
-        for(toy = 0; toy < 6; toy++){
+        for(toy = 0; toy < 9; toy++){
                 for(int N = 1; N <= 3; N++){
                         for(int nested = 0; nested < 2; nested++){
                                 struct ex_state ex;
@@ -186,7 +244,7 @@ int main(void)
                                         ok = (noutcomes == 1);
                                 }else{
                                         /* with one thread and eager parents the defect may still need a TSP switch */
-                                        ok = (noutcomes >= 2) || (N == 1 && toy == 2);
+                                        ok = (noutcomes >= 2) || (N == 1 && (toy == 2 || toy == 8));
                                 }
                                 printf("toy %d N=%d nested=%d executions=%ld maxpoints=%d outcomes=%d %s\n", toy, N, nested,
                                        ex.executions, ex.max_points, noutcomes, ok ? "ok" : "UNEXPECTED");
